@@ -6,6 +6,8 @@
 //!   sort <expected> <id:dist>…                        -> "ok ids…" | "err notenough"   (sort_peers_by_address)
 //!   inrange <range> <id:dist>…                        -> "ok ids…"                      (get_peers_in_range)
 //!   closest <num|-> <range|-> <id:dist>…              -> "ok ids…"                      (Node::calculate_get_closest_peers)
+//!   replcand <range|-> <id:dist>…                      -> "ok ids…"   (SwarmDriver::get_replicate_candidates on a real, never-run node
+//!                                                         driver whose routing table holds exactly the listed peers; target 40 = the node itself)
 use ant_evm::U256;
 use ant_networking::{sort_peers_by_address, verif::cmd::get_peers_in_range};
 use ant_node::verif::node::VerifNode;
@@ -34,6 +36,8 @@ fn u256_of(b: &BigUint) -> U256 {
 }
 
 struct World {
+    /// secret key bytes of the node whose `SwarmDriver` the `replcand` op builds
+    node_sk: [u8; 32],
     peers: Vec<PeerId>,
     addrs: Vec<(String, NetworkAddress, Vec<u8>, Vec<u8>)>, // kind, address, raw, xorname
     /// replay support: address bytes by hex
@@ -156,6 +160,39 @@ fn exec(w: &World, line: &str, target: &NetworkAddress) -> String {
                 }
             })
         }
+        ["replcand", r, rest @ ..] => {
+            let peers = parse_peers(w, rest);
+            let rt = tokio::runtime::Builder::new_current_thread().enable_all().build().expect("rt");
+            let res = {
+                let _g = rt.enter();
+                let dir = tempfile::tempdir().expect("tempdir");
+                let kp = Keypair::ed25519_from_bytes(w.node_sk).expect("ed25519");
+                let mut b = ant_networking::NetworkBuilder::new(kp, true);
+                b.listen_addr("127.0.0.1:0".parse().expect("addr"));
+                let (_network, _events, mut driver) = b.build_node(dir.path().to_path_buf()).expect("build_node");
+                let mut refused = None;
+                for (i, p) in peers.iter().enumerate() {
+                    let addr: libp2p::Multiaddr = format!("/ip4/10.0.0.{}/udp/{}/quic-v1", i + 1, 12000 + i).parse().expect("multiaddr");
+                    if !ant_networking::verif::event::add_address(&mut driver, p, addr) {
+                        refused = Some(i);
+                        break;
+                    }
+                }
+                let out = match refused {
+                    Some(i) => format!("refused {i}"),
+                    None => {
+                        if *r != "-" {
+                            ant_networking::verif::event::set_distance_range(&mut driver, U256::from_str_radix(r, 10).expect("range"));
+                        }
+                        ids_of(w, &ant_networking::verif::cmd::get_replicate_candidates(&mut driver, target))
+                    }
+                };
+                drop(driver);
+                out
+            };
+            rt.shutdown_background();
+            res
+        }
         ["closest", n, r, rest @ ..] => {
             let peers: Vec<(PeerId, Vec<libp2p::Multiaddr>)> = parse_peers(w, rest).into_iter().map(|p| (p, vec![])).collect();
             let num = if *n == "-" { None } else { Some(n.parse::<usize>().expect("n")) };
@@ -238,6 +275,21 @@ fn oracle(line: &str, r: &str, out: &mut Out) {
                 out.oracle_fail("close-group-nearest-others", line, &format!("got {got:?}, the nearest other peers ascending are {expect:?}"));
             }
         }
+        ["replcand", range, rest @ ..] => {
+            // the routing-table peers within the range of the TARGET, nearest first; fewer than 5 of them: the 5 nearest
+            let mut d = dists(rest);
+            d.sort_by(|a, b| a.0.cmp(&b.0));
+            let inr: Vec<String> = if *range != "-" {
+                let range = BigUint::parse_bytes(range.as_bytes(), 10).expect("r");
+                d.iter().filter(|(x, _)| *x <= range).map(|(_, i)| i.clone()).collect()
+            } else {
+                vec![]
+            };
+            let expect: Vec<String> = if *range != "-" && inr.len() >= 5 { inr } else { d.iter().take(5).map(|(_, i)| i.clone()).collect() };
+            if got != expect {
+                out.oracle_fail("replicate-candidates", line, &format!("got {got:?}, the peers within range of the target (or the 5 nearest) are {expect:?}"));
+            }
+        }
         ["closest", n, range, rest @ ..] => {
             let d = dists(rest);
             let expect: Vec<String> = if *range != "-" {
@@ -271,11 +323,19 @@ fn main() {
         }
     }
     let mut rng = Rng::new(seed);
-    let mut w = World { peers: (0..24).map(|_| rand_peer(&mut rng)).collect(), addrs: vec![], by_bytes: BTreeMap::new() };
+    let mut w = World { node_sk: [0u8; 32], peers: (0..24).map(|_| rand_peer(&mut rng)).collect(), addrs: vec![], by_bytes: BTreeMap::new() };
     for _ in 0..40 {
         let a = rand_addr(&mut rng);
         w.by_bytes.insert(hex(&a.1.as_bytes()), a.1.clone());
         w.addrs.push(a);
+    }
+    // address 40: the node whose driver `replcand` builds (interval replication targets the node itself)
+    w.node_sk.copy_from_slice(&rng.bytes(32));
+    {
+        let me = PeerId::from(Keypair::ed25519_from_bytes(w.node_sk).expect("ed25519").public());
+        let a = NetworkAddress::from_peer(me);
+        w.by_bytes.insert(hex(&a.as_bytes()), a.clone());
+        w.addrs.push(("peer".into(), a, me.to_bytes(), vec![]));
     }
     for p in w.peers.clone() {
         let a = NetworkAddress::from_peer(p);
@@ -322,7 +382,8 @@ fn main() {
                 run(&w, &format!("distance {a} {b} {ha} {hb}"), &target, &mut out);
             }
             _ => {
-                let ti = rng.below(w.addrs.len() as u64) as usize;
+                let replcand = rng.chance(1, 8);
+                let ti = if replcand && rng.chance(1, 3) { 40 } else { rng.below(w.addrs.len() as u64) as usize };
                 target = w.addrs[ti].1.clone();
                 out.line(format!("target {ti}"), "bad-op");
                 let npeers = *rng.pick(&[0usize, 1, 4, 5, 6, 8, 12, 20, 24]);
@@ -346,6 +407,21 @@ fn main() {
                 }
                 let bound = rng.pick(&bounds).clone();
                 let count = rng.below(npeers as u64 + 3);
+                if replcand {
+                    // distinct peers only (a routing table holds a peer once)
+                    let mut uniq = idx.clone();
+                    uniq.sort();
+                    uniq.dedup();
+                    let pl = peers_line(&w, &target, &uniq);
+                    let r = if rng.chance(1, 6) { "-".to_string() } else { bound.to_string() };
+                    let line = format!("replcand {r} {pl}");
+                    // a peer the k-bucket refuses cannot be in the routing table: skip such a table
+                    let probe = catch_unwind(AssertUnwindSafe(|| exec(&w, &line, &target))).unwrap_or_else(|_| "panic".into());
+                    if !probe.starts_with("refused") {
+                        run(&w, &line, &target, &mut out);
+                    }
+                    continue;
+                }
                 match rng.below(5) {
                     4 => {
                         // self among the answers at a seeded position (often among the nearest), or absent
